@@ -198,7 +198,11 @@ func init() {
 			// a concurrent writer touches a revision between the list and the write (conflict with a stale or a
 			// refreshed view), or the write fails / loses its response
 			FaultKinds: []string{world.FConflict, world.FConflictFresh, world.FErr500, world.FTimeout},
-			FaultOn:    func(c *world.Call) bool { return c.Resource == "controllerrevisions" && c.IsWrite() }}
+			FaultOn: func(c *world.Call) bool {
+				// also the status write: the update revision the reconcile worked out must reach the status even when that
+				// write has to be retried
+				return (c.Resource == "controllerrevisions" && c.IsWrite()) || (c.Resource == "statefulsets" && c.Sub == "status")
+			}}
 		g := explore.Search(rep, cfg, seeds)
 		for k := range g.Nodes {
 			rep.Count(k, true, "")
@@ -300,7 +304,7 @@ func init() {
 		rep.Extra["edit_depth"] = D
 		rep.Extra["reconciles"] = g.Reconciles
 		rep.Extra["templates_from_structural_generator"] = nTemplates
-		rep.Rule = fmt.Sprintf("(A) explicit-state search from %d seeds (new set, histories of 1-3 revisions incl. a rollback, and a pre-existing revision engineered to collide on name with the one the controller is about to create, collisionCount unset/0/1/2, owned or unrelated): every edit history of depth <=%d over {template -> T1|T2|T3, replicas +-1, slot 0 add/remove, pause on/off, label edit} interleaved with reconcile and kubelet progress, deduplicated by state; every write on a ControllerRevision may additionally hit a conflict (stale or refreshed view), an InternalError or a lost response (counted as one of the edits); oracle after every successful reconcile: updateRevision names a stored revision whose data applied to the set reproduces the template (real ApplyRevision + semantic equality), a template already recorded never adds a revision and its revision is re-used and numbered above all others, non-template edits never move updateRevision, the colliding revision is never overwritten or taken as update revision. (B) a reflective generator over PodTemplateSpec (every path set alone to each variant, plus int64 fields at and beyond 2^53; thorough: all pairs in the first two levels): one new set per template, two reconciles; the revision must mirror the template and the second reconcile must add nothing; and the same with the template's revision already stored as the reference encoder (the built-in controller's, i.e. any earlier build's) records it: no reconcile may add a revision.", len(seeds), D)
+		rep.Rule = fmt.Sprintf("(A) explicit-state search from %d seeds (new set, histories of 1-3 revisions incl. a rollback, and a pre-existing revision engineered to collide on name with the one the controller is about to create, collisionCount unset/0/1/2, owned or unrelated): every edit history of depth <=%d over {template -> T1|T2|T3, replicas +-1, slot 0 add/remove, pause on/off, label edit} interleaved with reconcile and kubelet progress, deduplicated by state; every write on a ControllerRevision and every status write may additionally hit a conflict (stale or refreshed view), an InternalError or a lost response (counted as one of the edits); oracle after every successful reconcile: updateRevision names a stored revision whose data applied to the set reproduces the template (real ApplyRevision + semantic equality), a template already recorded never adds a revision and its revision is re-used and numbered above all others, non-template edits never move updateRevision, the colliding revision is never overwritten or taken as update revision. (B) a reflective generator over PodTemplateSpec (every path set alone to each variant, plus int64 fields at and beyond 2^53; thorough: all pairs in the first two levels): one new set per template, two reconciles; the revision must mirror the template and the second reconcile must add nothing; and the same with the template's revision already stored as the reference encoder (the built-in controller's, i.e. any earlier build's) records it: no reconcile may add a revision.", len(seeds), D)
 		rep.Validated = g.Reconciles + 2*nTemplates
 		return rep.Finish()
 	})
